@@ -174,6 +174,7 @@ def _events(args):
     setup_repo_import()
     rnd = random.Random(seed)
     ev = []
+    prev_win = [None, None]
     for _ in range(n):
         with_seq = (not big) and rnd.random() < 0.7
         built = _build(rnd, big, with_seq, with_seq and rnd.random() < 0.4)
@@ -224,6 +225,11 @@ def _events(args):
                     qe = rnd.randrange(qs, L + 2)
                 if rnd.random() < 0.1:
                     qs, qe = cur.start, cur.end
+                # the SAME window that was asked of the previous collection with sequence in this process (another genome
+                # under the same sequence name): the answer is about THIS collection's sequence
+                if depth == 0 and with_seq and not big and prev_win[0] is not None and rnd.random() < 0.5 \
+                        and cur.start <= prev_win[0] < prev_win[1] <= cur.end:
+                    qs, qe = prev_win
                 targeted = False
                 if not big and with_seq and cur.variant_collections and rnd.random() < 0.5:
                     # a window that holds a variant and a gene ONE of whose isoforms has no base in it (relaxed query): the
@@ -252,6 +258,8 @@ def _events(args):
                 flags = [rnd.random() < 0.3, rnd.random() < 0.5, rnd.random() < 0.5]
                 if targeted:
                     flags = [False, False, flags[2]]
+                if depth == 0 and with_seq and not big:
+                    prev_win[0], prev_win[1] = qs, qe
                 op, ar = "pos", [qs, qe] + flags
                 # (half of the calls leave out every flag that has its DOCUMENTED default: coding_only=False,
                 # completely_within=True, expand_location_to_children=False)
